@@ -10,11 +10,13 @@ META = {
             "every permutation of a duplicate-free member list (sort_perm_invariant, compile_independent_of_iteration_order, instantiated for Go's "
             "byte-wise string order), and set insertion / boolean or / counting / any commutative fold are order-insensitive; with the negative "
             "witnesses (an unsorted collecting loop IS order dependent). (2) REGENERATED static facts: extract/c27_sites.go (go/types) lists every "
-            "`range` over a map in compiler_wat, wir, wir/wat, loader, ssa, types, wat/*, wasm/* with a syntactic class (sorted-after / "
+            "`range` over a map in every package on the build pipelines (compiler_wat, wir, wir/wat, loader, parser, ast, ssa, types, wat/*, watutil/watstrip, wat2c, watfmt, wasm/*, appbuild, config, waroot/src) with a syntactic class (sorted-after / "
             "order-insensitive / unreachable / other); the table goes into Gen/C27Sites.lean and the kernel re-checks that every site is of a "
             "proved shape or carries a verdict of the committed audit (extract/c27_sites_expected.json); a new or reclassified unsorted site "
             "breaks the obligation. (3) Search on the real code: every program of a corpus is built N times in one process (Go randomises each "
-            "map range) and once in each of N processes (different hash seeds), WAT text and wasm binary are byte-compared. The full statement "
+            "map range) and once in each of N processes (different hash seeds, different build orders), WAT text, wasm binary and the further artefacts are "
+            "byte-compared — in the default configuration (api.BuildFile) AND under the configurations of `wa build` that change the pipeline: -O "
+            "(watstrip.WatStrip), each target OS (js, wasm4, arduino, unknown, linux; wasm4/arduino apps are always stripped), wat2c output, JS binding. The full statement "
             "(every program, every schedule) is decided by exploration only: the link from 'all sites accounted' to 'the compiler is the model' "
             "is an audit, not a proof.",
     "note": "Trusted: Lean kernel; extract/c27_sites.go (classification is syntactic and conservative: anything unrecognised is 'other'); the human "
@@ -113,6 +115,49 @@ def regenerate(ctx):
 
 
 # ------------------------------------------------------------------------------------------ corpus
+# build configuration of an item (by item name); "" = default configuration through api.BuildFile.  See harness/c27 buildCfg.
+SPEC = {}
+# the configurations of `wa build` that change the pipeline (internal/app/appbuild): -O => watstrip.WatStrip, every target OS
+# (base WAT, host imports, #wa:build selection; wasm4/arduino directories are always stripped), wat2c (arduino, --wat2c-native),
+# the JS binding + index.html of the js target
+FILE_CONFIGS = ["O", "os:js,O,jsb", "os:wasm4,O", "os:unknown,O", "os:arduino,O,c", "c", "os:wasm4", "os:linux"]
+APP_CONFIGS = {"w4-": ["os:wasm4", "os:wasm4,O,c"], "arduino": ["os:arduino,c", "os:arduino,O"], "": ["O", "os:js,O,jsb"]}
+
+
+def add_configs(ctx, items):
+    """the same programs under the other build configurations (group 'config')"""
+    quick = ctx.tier == "quick"
+    out = []
+    files = [it for it in items if it[1] == "file" and it[3] in ("corpus", "example")]
+    files = files[:4] if quick else files
+    for (name, kind, path, group) in files:
+        for spec in (FILE_CONFIGS[:6] if quick else FILE_CONFIGS):
+            n = "%s [%s]" % (name, spec)
+            SPEC[n] = spec
+            out.append((n, kind, path, "config"))
+    if not quick:
+        for (name, kind, path, group) in [it for it in items if it[3] in ("matrix", "gen", "std")]:
+            n = "%s [O]" % name
+            SPEC[n] = "O"
+            out.append((n, kind, path, "config"))
+    apps = sorted(os.path.dirname(p) for p in glob.glob(os.path.join(vlib.REPO, "waroot", "examples", "*", "wa.mod")))
+    if quick:
+        apps = [a for a in apps if os.path.basename(a) in ("w4-hello", "w4-snake", "arduino", "hello", "prime", "brainfuck")]
+    for a in apps:
+        b = os.path.basename(a)
+        key = "w4-" if b.startswith("w4-") else ("arduino" if b.startswith("arduino") else "")
+        for spec in APP_CONFIGS[key]:
+            n = "app:%s [%s]" % (os.path.relpath(a, vlib.REPO), spec)
+            SPEC[n] = spec
+            out.append((n, "dir", a, "config"))
+    return out
+
+
+def item_line(it):
+    sp = SPEC.get(it[0], "")
+    return "%s %s%s" % (it[1], it[2], (" cfg=" + sp) if sp else "")
+
+
 def build_corpus(ctx):
     """list of (name, kind, path, group)"""
     from gen import matrix
@@ -165,7 +210,7 @@ def build_corpus(ctx):
             items.append(("gen:%d" % i, "file", p, "gen"))
     except Exception as e:                                         # generator is optional
         ctx.notes.append("gen/progs not usable: %r" % (e,))
-    return items
+    return items + add_configs(ctx, items)
 
 
 def run_lines(ctx, h, args, lines, timeout=3000):
@@ -220,6 +265,7 @@ def run(ctx):
         rp = json.load(open(ctx.replay))["replay"]
         d = os.path.join(ctx.tmp, "src"); os.makedirs(d, exist_ok=True)
         items = []
+        SPEC[rp["program"]] = rp.get("config", "")
         if rp.get("kind") == "dir":
             items.append((rp["program"], "dir", rp["path"], "replay"))
         elif "source" in rp:
@@ -229,7 +275,7 @@ def run(ctx):
         N = int(rp.get("builds", N))
     else:
         items = build_corpus(ctx)
-    lines = ["%s %s" % (k, p) for (_, k, p, _) in items]
+    lines = [item_line(it) for it in items]
 
     # ---- N builds in ONE process (chunks in parallel), and one build in each of N processes
     workers = 12
@@ -279,19 +325,21 @@ def run(ctx):
         if f[0] == "DIFF":
             what = f[1]
             a, b = (unhex(f[4]), unhex(f[5])) if len(f) > 5 else ("", "")
-            key = "in-process:%s-differs:%s" % (what, shape(a) if what == "wat" else what)
-            ctx.violation(key, "%s: build 0 and build %s in ONE process differ in the %s; first differing line %s:\n    < %s\n    > %s"
+            key = "in-process:%s-differs:%s" % (what, shape(a) if what in ("wat", "aux") else what)
+            if SPEC.get(name):
+                key += ":config-" + ("strip" if "O" in SPEC[name].split(",") or "wasm4" in SPEC[name] or "arduino" in SPEC[name] else "target")
+            ctx.violation(key, "%s: build 0 and build %s in ONE process (same configuration) differ in the %s; first differing line %s:\n    < %s\n    > %s"
                           % (name, f[2], what, f[3], a[:200], b[:200]),
                           replay_of(name, kind, path, N, {"mode": "in-process", "what": what, "build": f[2], "line": f[3], "a": a, "b": b}))
             continue
         # cross-process comparison on digests
         digs = {}
         for j, x in enumerate(cross[i]):
-            digs.setdefault(" ".join(x.split()[:3]) if x.startswith("same") else " ".join(x.split()[:2]), []).append(j)
-        mine = " ".join(f[:3]) if f[0] == "same" else " ".join(f[:2])
+            digs.setdefault(" ".join(x.split()[:4]) if x.startswith("same") else " ".join(x.split()[:2]), []).append(j)
+        mine = " ".join(f[:4]) if f[0] == "same" else " ".join(f[:2])
         digs.setdefault(mine, []).append("in-process")
         if len(digs) > 1:
-            det = cross_detail(ctx, h, kind, path)
+            det = cross_detail(ctx, h, kind, path, SPEC.get(name, ""))
             key = "cross-process:%s" % (det.get("key") or "digest-differs")
             ctx.violation(key, "%s: builds in different processes differ (%d distinct results over %d processes)%s"
                           % (name, len(digs), N, det.get("text", "")),
@@ -371,7 +419,7 @@ def run(ctx):
 
 
 def replay_of(name, kind, path, n, extra):
-    r = {"program": name, "kind": kind, "builds": n}
+    r = {"program": name, "kind": kind, "builds": n, "config": SPEC.get(name, "")}
     if kind == "file":
         r["file_name"] = os.path.basename(path)
         try:
@@ -384,12 +432,12 @@ def replay_of(name, kind, path, n, extra):
     return r
 
 
-def cross_detail(ctx, h, kind, path):
+def cross_detail(ctx, h, kind, path, spec=""):
     """dump the build in up to 10 fresh processes until two differ; report the first differing WAT line"""
     first = None
     for k in range(10):
         pre = os.path.join(ctx.tmp, "dump%d" % k)
-        ctx.run_bin(h, ["dump", kind, path, pre], timeout=600)
+        ctx.run_bin(h, ["dump", kind, path, pre] + (["cfg=" + spec] if spec else []), timeout=600)
         try:
             wat = open(pre + ".wat", "rb").read()
             wasm = open(pre + ".wasm", "rb").read()
